@@ -24,7 +24,8 @@ as ground truth about links; none of it was in a model before.
   `weak` = the flag the arm stamped = the classifier's verdict for ITS conn id (with reason / share / threshold, never
   `"unknown"`), the CC fields = the snapshot of ITS controller entry = what the arm stamped (never `"unknown"`);
   aggregates (`Stats_aggregates`);
-* §5 **across a reload the entries follow the links by conn id** (`Stats_entry_by_id`, `Stats_reload_follows_ids`).
+* §5 **across a reload the entries follow the links by conn id** (`Stats_entry_by_id`, `Stats_reload_follows_ids`);
+  every snapshot published along ANY run is the arm's snapshot of a reachable state (`Stats_published_is_armSnapshot`).
 
 Limits, stated honestly.  §1–§3 hold by unfolding the model: their force is the correspondence run (the model IS what
 the real `update` computes, bit for bit, on every generated tick).  The `RwLock`, `to_json` and the Prometheus
@@ -304,6 +305,7 @@ theorem stamped_addr (l : FLink F) (st : Stamp) : (FLink.stamped l st).addr = l.
 omit [Scalar F] in
 theorem stamped_cto (l : FLink F) (st : Stamp) : (FLink.stamped l st).connTimeoutMs = l.connTimeoutMs := rfl
 
+omit [LinkCc.Scalar G] in
 /-- The classification the arm computed holds, under distinct conn ids and faithful views, exactly ONE entry per
 link, found by its conn id: the verdict the filter computed from THIS link's readings. -/
 theorem armResult_find (v : Views F G) (hv : Faithful v) (s : Full F G) (now : Nat) (l : FLink F)
@@ -470,6 +472,29 @@ theorem Stats_reload_follows_ids (v : Views F G) (hv : Faithful v) (s : Full F G
   rw [this] at h13'
   exact (Option.some.inj h13').symm
 
+/-- **Every snapshot published along a run is the arm's snapshot of a reachable state**: a snapshot published during
+ANY run `es` of the whole sender is `armSnapshot` of the state reached by the events before one of the run's ticks.
+So `Stats_arm_honest` / `Stats_entry_by_id` (stated for EVERY state) speak about every snapshot a `get_stats` caller or
+a `stats` subscriber can ever see; the side conditions (pairwise distinct conn ids) hold of every reachable state of a
+run whose reloads draw new conn ids (`SysArm.Full_run_inv`). -/
+theorem Stats_published_is_armSnapshot (v : Views F G) (s : Full F G) (es : List FEv) :
+    ∀ p ∈ published v s es, ∃ pre now post, es = pre ++ FEv.tick now :: post ∧
+      p = armSnapshot v (Full.run v s pre).1 now := by
+  induction es generalizing s with
+  | nil => intro p hp; cases hp
+  | cons e es ih =>
+    cases e with
+    | tick now =>
+      intro p hp
+      rcases List.mem_cons.1 hp with rfl | hp
+      · exact ⟨[], now, es, rfl, rfl⟩
+      · obtain ⟨pre, now', post, rfl, rfl⟩ := ih (hkArm v s now).1 p hp
+        exact ⟨.tick now :: pre, now', post, rfl, rfl⟩
+    | other e =>
+      intro p hp
+      obtain ⟨pre, now', post, rfl, rfl⟩ := ih (Full.step v s (.other e)).1 p hp
+      exact ⟨.other e :: pre, now', post, rfl, rfl⟩
+
 /-! ## 6. Non-vacuity on the concrete state / run of `Props/SysArm.lean`
 
 `exF`: two busy links (live, window 25000, a queued datagram, a packet in flight, non-default stamps), one fresh link;
@@ -496,6 +521,16 @@ example : (published exViews exF exEvs).map (fun p => p.links.map (·.addr)) =
      (Full.run exViews exF exEvs).1.sys.links.map (·.addr)] ∧
     (published exViews exF exEvs).map (·.totalLinks) = [3, 4] := by
   refine ⟨by decide +kernel, by decide +kernel⟩
+
+-- the hypotheses of `Stats_reload_follows_ids` are met by the example run: after the first tick only non-tick events
+-- (among them the reload) until the second tick; the conn ids before the second tick are distinct; links 7 and 8 are new
+example : (∀ e ∈ [FEv.other exReload, .other (.uplink 5200 2 exData)], ∃ e', e = FEv.other e') ∧
+    (ids (Full.run exViews (hkArm exViews exF 5100).1 [.other exReload, .other (.uplink 5200 2 exData)]).1.sys.links).Nodup ∧
+    (7 ∉ ids (hkArm exViews exF 5100).1.sys.links) := by
+  refine ⟨?_, by decide +kernel, by decide +kernel⟩
+  intro e he
+  simp only [List.mem_cons, List.not_mem_nil, or_false] at he
+  rcases he with rfl | rfl <;> exact ⟨_, rfl⟩
 
 -- `Stats_setCfg_visible_run`: switching to classic mode before the example run is reported by both snapshots
 example : (published exViews exF ([FEv.other (.setCfg { classic := true, connTimeoutMs := 7000 })] ++ exEvs)).map
